@@ -276,6 +276,15 @@ example : changedParts 1 1 exTx (apply (.swapInputs 0 2) exTx) ≠ [] ∧
   unforgeability.  Neither is provable about a verifier; both appear as the hypotheses `horacle`,
   `hunf` below, and the tie checks them empirically with the Lean ECDSA against OpenSSL.
 
+  `c.SigTotal` (every Part 2 theorem): the context's `RawSignatureHash` returns a digest — raises
+  nothing — for every script code of at most 10 000 bytes that tokenises and every hash-type byte.
+  (Since C06/C07's audit round the context carries the OUTCOME of RawSignatureHash; this hypothesis
+  replaces the former `0 ≤ inIdx`.)  It holds for the reference context `txCtx` unconditionally
+  (`txCtx_sigTotal`: the reference digest is total) and for the context of the library model
+  `Real.realCtx tx i` whenever `tx` is in wire range and `i ≥ 0` (`realCtx_sigTotal`, from C03).
+  Without it `_CheckSig` can raise IndexError / struct.error (known findings D7, out-of-range fields)
+  and the verdict is not a VerifyScriptError.
+
   Size hypotheses (`… < 0x4c`): keys (33 / 65 bytes) and DER signatures with hash-type byte (9 … 74
   bytes) are pushed directly.  `body.length + 1 ≠ key.length` etc. exclude the contrived case in which
   the signature push itself occurs in the script code (FindAndDelete would then remove it). -/
@@ -285,50 +294,50 @@ open BtcVerif.Model.ScriptEval BtcVerif.Spec.Script BtcVerif.Spec.Templates BtcV
 
 /-- pay-to-pubkey -/
 theorem p2pk_verify (c : Ctx) (fl : Flags) (body : Bytes) (ht : UInt8) (key : Bytes)
-    (hfl : fl.admissible = true) (hidx : c.SigTotal) (hk : key.length < 0x4c) (hs : body.length + 1 < 0x4c)
+    (hfl : fl.admissible = true) (htot : c.SigTotal) (hk : key.length < 0x4c) (hs : body.length + 1 < 0x4c)
     (hne : body.length + 1 ≠ key.length) :
     verifyScript c fl (p2pkScriptSig (body ++ [ht])) (p2pkScript key) =
       if c.env.sigCheck body key (p2pkScript key) ht.toNat then .ok () else .error .verify :=
-  verify_p2pk c fl body ht key hfl hidx hk hs hne
+  verify_p2pk c fl body ht key hfl htot hk hs hne
 
 theorem template_accepts_p2pk (c : Ctx) (fl : Flags) (body : Bytes) (ht : UInt8) (key : Bytes)
-    (hfl : fl.admissible = true) (hidx : c.SigTotal) (hk : key.length < 0x4c) (hs : body.length + 1 < 0x4c)
+    (hfl : fl.admissible = true) (htot : c.SigTotal) (hk : key.length < 0x4c) (hs : body.length + 1 < 0x4c)
     (hne : body.length + 1 ≠ key.length)
     (horacle : c.env.sigCheck body key (p2pkScript key) ht.toNat = true) :
     verifyScript c fl (p2pkScriptSig (body ++ [ht])) (p2pkScript key) = .ok () := by
-  rw [p2pk_verify c fl body ht key hfl hidx hk hs hne, horacle]; rfl
+  rw [p2pk_verify c fl body ht key hfl htot hk hs hne, horacle]; rfl
 
 theorem template_rejects_wrong_key_p2pk (c : Ctx) (fl : Flags) (body : Bytes) (ht : UInt8) (key : Bytes)
-    (hfl : fl.admissible = true) (hidx : c.SigTotal) (hk : key.length < 0x4c) (hs : body.length + 1 < 0x4c)
+    (hfl : fl.admissible = true) (htot : c.SigTotal) (hk : key.length < 0x4c) (hs : body.length + 1 < 0x4c)
     (hne : body.length + 1 ≠ key.length)
     (horacle : c.env.sigCheck body key (p2pkScript key) ht.toNat = false) :
     verifyScript c fl (p2pkScriptSig (body ++ [ht])) (p2pkScript key) = .error .verify := by
-  rw [p2pk_verify c fl body ht key hfl hidx hk hs hne, horacle]; rfl
+  rw [p2pk_verify c fl body ht key hfl htot hk hs hne, horacle]; rfl
 
 /-- pay-to-pubkey-hash, spent with the key whose HASH160 the script commits to -/
 theorem p2pkh_verify (c : Ctx) (fl : Flags) (body : Bytes) (ht : UInt8) (key : Bytes)
-    (hfl : fl.admissible = true) (hidx : c.SigTotal) (hk : key.length < 0x4c) (hs : body.length + 1 < 0x4c)
+    (hfl : fl.admissible = true) (htot : c.SigTotal) (hk : key.length < 0x4c) (hs : body.length + 1 < 0x4c)
     (hhl : (c.env.hashes.hash160 key).length = 20) (hne : body.length + 1 ≠ 20) :
     verifyScript c fl (p2pkhScriptSig (body ++ [ht]) key) (p2pkhScript (c.env.hashes.hash160 key)) =
       if c.env.sigCheck body key (p2pkhScript (c.env.hashes.hash160 key)) ht.toNat then .ok ()
       else .error .verify :=
-  verify_p2pkh c fl body ht key hfl hidx hk hs hhl hne
+  verify_p2pkh c fl body ht key hfl htot hk hs hhl hne
 
 theorem template_accepts_p2pkh (c : Ctx) (fl : Flags) (body : Bytes) (ht : UInt8) (key : Bytes)
-    (hfl : fl.admissible = true) (hidx : c.SigTotal) (hk : key.length < 0x4c) (hs : body.length + 1 < 0x4c)
+    (hfl : fl.admissible = true) (htot : c.SigTotal) (hk : key.length < 0x4c) (hs : body.length + 1 < 0x4c)
     (hhl : (c.env.hashes.hash160 key).length = 20) (hne : body.length + 1 ≠ 20)
     (horacle : c.env.sigCheck body key (p2pkhScript (c.env.hashes.hash160 key)) ht.toNat = true) :
     verifyScript c fl (p2pkhScriptSig (body ++ [ht]) key) (p2pkhScript (c.env.hashes.hash160 key)) = .ok () := by
-  rw [p2pkh_verify c fl body ht key hfl hidx hk hs hhl hne, horacle]; rfl
+  rw [p2pkh_verify c fl body ht key hfl htot hk hs hhl hne, horacle]; rfl
 
 /-- … with the right key but a signature the oracle rejects (made by another key / for another digest) -/
 theorem template_rejects_wrong_key_p2pkh (c : Ctx) (fl : Flags) (body : Bytes) (ht : UInt8) (key : Bytes)
-    (hfl : fl.admissible = true) (hidx : c.SigTotal) (hk : key.length < 0x4c) (hs : body.length + 1 < 0x4c)
+    (hfl : fl.admissible = true) (htot : c.SigTotal) (hk : key.length < 0x4c) (hs : body.length + 1 < 0x4c)
     (hhl : (c.env.hashes.hash160 key).length = 20) (hne : body.length + 1 ≠ 20)
     (horacle : c.env.sigCheck body key (p2pkhScript (c.env.hashes.hash160 key)) ht.toNat = false) :
     verifyScript c fl (p2pkhScriptSig (body ++ [ht]) key) (p2pkhScript (c.env.hashes.hash160 key)) =
       .error .verify := by
-  rw [p2pkh_verify c fl body ht key hfl hidx hk hs hhl hne, horacle]; rfl
+  rw [p2pkh_verify c fl body ht key hfl htot hk hs hhl hne, horacle]; rfl
 
 /-- … with another key altogether (its hash is not the committed one): rejected at OP_EQUALVERIFY with
     an EvalScriptError, whatever the signature and whatever the oracle says.  (That two different keys
@@ -352,7 +361,7 @@ theorem matching_iff_greedy_reverse (chk : Bytes → Bytes → Bool) (sigs keys 
 /-- bare m-of-n multisig, 1 ≤ m ≤ n ≤ 20: accepted exactly when the m signatures can be assigned, in
     order, to m of the n keys such that the oracle accepts each pair -/
 theorem multisig_verify (c : Ctx) (fl : Flags) (m : Nat) (keys sigs : List Bytes)
-    (hfl : fl.admissible = true) (hidx : c.SigTotal) (hm1 : 1 ≤ m) (hmn : m ≤ keys.length)
+    (hfl : fl.admissible = true) (htot : c.SigTotal) (hm1 : 1 ≤ m) (hmn : m ≤ keys.length)
     (hn : keys.length ≤ 20) (hsl : sigs.length = m)
     (hk : ∀ k ∈ keys, k.length < 0x4c) (hs : ∀ s ∈ sigs, s.length < 0x4c) (hs1 : ∀ s ∈ sigs, s.length ≠ 1)
     (hne : ∀ s ∈ sigs, ∀ k ∈ keys, s.length ≠ k.length) :
@@ -360,7 +369,7 @@ theorem multisig_verify (c : Ctx) (fl : Flags) (m : Nat) (keys sigs : List Bytes
       verifyScript c fl (multisigScriptSig sigs) (multisigScript m keys) = .ok ()) ∧
     (¬ Matching (chkSig c.env (multisigScript m keys)) sigs keys →
       verifyScript c fl (multisigScriptSig sigs) (multisigScript m keys) = .error .verify) := by
-  rw [verify_multisig c fl m keys sigs hfl hidx hm1 hmn hn hsl hk hs hs1 hne, ← matching_iff_greedy_reverse]
+  rw [verify_multisig c fl m keys sigs hfl htot hm1 hmn hn hsl hk hs hs1 hne, ← matching_iff_greedy_reverse]
   constructor
   · intro h; rw [h]; rfl
   · intro h
@@ -372,28 +381,28 @@ theorem multisig_verify (c : Ctx) (fl : Flags) (m : Nat) (keys sigs : List Bytes
 
 /-- every signature accepted for "its" key, the keys in order (`pos` strictly increasing): accepted -/
 theorem template_accepts_multisig (c : Ctx) (fl : Flags) (m : Nat) (keys sigs : List Bytes)
-    (hfl : fl.admissible = true) (hidx : c.SigTotal) (hm1 : 1 ≤ m) (hmn : m ≤ keys.length)
+    (hfl : fl.admissible = true) (htot : c.SigTotal) (hm1 : 1 ≤ m) (hmn : m ≤ keys.length)
     (hn : keys.length ≤ 20) (hsl : sigs.length = m)
     (hk : ∀ k ∈ keys, k.length < 0x4c) (hs : ∀ s ∈ sigs, s.length < 0x4c) (hs1 : ∀ s ∈ sigs, s.length ≠ 1)
     (hne : ∀ s ∈ sigs, ∀ k ∈ keys, s.length ≠ k.length)
     (horacle : Matching (chkSig c.env (multisigScript m keys)) sigs keys) :
     verifyScript c fl (multisigScriptSig sigs) (multisigScript m keys) = .ok () :=
-  (multisig_verify c fl m keys sigs hfl hidx hm1 hmn hn hsl hk hs hs1 hne).1 horacle
+  (multisig_verify c fl m keys sigs hfl htot hm1 hmn hn hsl hk hs hs1 hne).1 horacle
 
 /-- signatures repeated from one key, out of key order, or from a key that is not in the script
     admit no such assignment: rejected -/
 theorem template_rejects_wrong_key_multisig (c : Ctx) (fl : Flags) (m : Nat) (keys sigs : List Bytes)
-    (hfl : fl.admissible = true) (hidx : c.SigTotal) (hm1 : 1 ≤ m) (hmn : m ≤ keys.length)
+    (hfl : fl.admissible = true) (htot : c.SigTotal) (hm1 : 1 ≤ m) (hmn : m ≤ keys.length)
     (hn : keys.length ≤ 20) (hsl : sigs.length = m)
     (hk : ∀ k ∈ keys, k.length < 0x4c) (hs : ∀ s ∈ sigs, s.length < 0x4c) (hs1 : ∀ s ∈ sigs, s.length ≠ 1)
     (hne : ∀ s ∈ sigs, ∀ k ∈ keys, s.length ≠ k.length)
     (horacle : ¬ Matching (chkSig c.env (multisigScript m keys)) sigs keys) :
     verifyScript c fl (multisigScriptSig sigs) (multisigScript m keys) = .error .verify :=
-  (multisig_verify c fl m keys sigs hfl hidx hm1 hmn hn hsl hk hs hs1 hne).2 horacle
+  (multisig_verify c fl m keys sigs hfl htot hm1 hmn hn hsl hk hs hs1 hne).2 horacle
 
 /-- P2SH wrapping of pay-to-pubkey (flag P2SH set) -/
 theorem p2sh_p2pk_verify (c : Ctx) (fl : Flags) (body : Bytes) (ht : UInt8) (key : Bytes)
-    (hfl : fl.admissible = true) (hp : fl.p2sh = true) (hidx : c.SigTotal) (hk : key.length + 2 < 0x4c)
+    (hfl : fl.admissible = true) (hp : fl.p2sh = true) (htot : c.SigTotal) (hk : key.length + 2 < 0x4c)
     (hs : body.length + 1 < 0x4c) (hhl : ∀ x, (c.env.hashes.hash160 x).length = 20)
     (hne : body.length + 1 ≠ key.length) :
     verifyScript c fl (p2shScriptSig (p2pkScriptSig (body ++ [ht])) (p2pkScript key))
@@ -404,11 +413,11 @@ theorem p2sh_p2pk_verify (c : Ctx) (fl : Flags) (body : Bytes) (ht : UInt8) (key
       pushData (body ++ [ht]) ++ pushData (p2pkScript key) := by
     simp only [p2shScriptSig, p2pkScriptSig, pushEnc, hrl, if_true, pushData]
   rw [this]
-  exact verify_p2sh_p2pk c fl body ht key hfl hp hidx hk hs hhl hne
+  exact verify_p2sh_p2pk c fl body ht key hfl hp htot hk hs hhl hne
 
 /-- P2SH wrapping of pay-to-pubkey-hash -/
 theorem p2sh_p2pkh_verify (c : Ctx) (fl : Flags) (body : Bytes) (ht : UInt8) (key : Bytes)
-    (hfl : fl.admissible = true) (hp : fl.p2sh = true) (hidx : c.SigTotal) (hk : key.length < 0x4c)
+    (hfl : fl.admissible = true) (hp : fl.p2sh = true) (htot : c.SigTotal) (hk : key.length < 0x4c)
     (hs : body.length + 1 < 0x4c) (hhl : ∀ x, (c.env.hashes.hash160 x).length = 20) (hne : body.length + 1 ≠ 20) :
     verifyScript c fl
         (p2shScriptSig (p2pkhScriptSig (body ++ [ht]) key) (p2pkhScript (c.env.hashes.hash160 key)))
@@ -421,11 +430,11 @@ theorem p2sh_p2pkh_verify (c : Ctx) (fl : Flags) (body : Bytes) (ht : UInt8) (ke
       pushData (body ++ [ht]) ++ pushData key ++ pushData (p2pkhScript (c.env.hashes.hash160 key)) := by
     simp only [p2shScriptSig, p2pkhScriptSig, pushEnc, hrl, if_true, pushData]
   rw [this]
-  exact verify_p2sh_p2pkh c fl body ht key hfl hp hidx hk hs hhl hne
+  exact verify_p2sh_p2pkh c fl body ht key hfl hp htot hk hs hhl hne
 
 /-- P2SH wrapping of m-of-n multisig (serialised script within the 520-byte element limit) -/
 theorem p2sh_multisig_verify (c : Ctx) (fl : Flags) (m : Nat) (keys sigs : List Bytes)
-    (hfl : fl.admissible = true) (hp : fl.p2sh = true) (hidx : c.SigTotal) (hm1 : 1 ≤ m) (hmn : m ≤ keys.length)
+    (hfl : fl.admissible = true) (hp : fl.p2sh = true) (htot : c.SigTotal) (hm1 : 1 ≤ m) (hmn : m ≤ keys.length)
     (hn : keys.length ≤ 20) (hsl : sigs.length = m)
     (hk : ∀ k ∈ keys, k.length < 0x4c) (hs : ∀ s ∈ sigs, s.length < 0x4c) (hs1 : ∀ s ∈ sigs, s.length ≠ 1)
     (hne : ∀ s ∈ sigs, ∀ k ∈ keys, s.length ≠ k.length)
@@ -436,7 +445,7 @@ theorem p2sh_multisig_verify (c : Ctx) (fl : Flags) (m : Nat) (keys sigs : List 
     (Matching (chkSig c.env redeem) sigs keys → spend = .ok ()) ∧
     (¬ Matching (chkSig c.env redeem) sigs keys → spend = .error .verify) := by
   intro redeem spend
-  have e := verify_p2sh_multisig c fl m keys sigs hfl hp hidx hm1 hmn hn hsl hk hs hs1 hne hrl hhl
+  have e := verify_p2sh_multisig c fl m keys sigs hfl hp htot hm1 hmn hn hsl hk hs hs1 hne hrl hhl
   simp only at e
   have hspend : spend = if greedy (chkSig c.env redeem) sigs.reverse keys.reverse then .ok () else .error .verify := e
   rw [hspend, ← matching_iff_greedy_reverse]
@@ -476,7 +485,7 @@ section edits
 open BtcVerif.Model.ScriptEval BtcVerif.Spec.Script BtcVerif.Spec.Templates BtcVerif.C05T
 variable (hashes : Hashes) (ecdsa : Bytes → Bytes → Bytes → Bool) (tx : Tx) (i : Nat) (e : Edit) (fl : Flags)
 
-theorem txCtx_inIdx : (txCtx hashes ecdsa tx i).SigTotal := ⟨fun _ _ _ _ _ => ⟨_, rfl⟩⟩
+theorem txCtx_sigTotal : (txCtx hashes ecdsa tx i).SigTotal := ⟨fun _ _ _ _ _ => ⟨_, rfl⟩⟩
 
 /-- the signature oracle of the edited transaction agrees with that of the original on every
     signature whose hash type leaves the edit uncommitted -/
@@ -513,8 +522,8 @@ theorem p2pk_uncommitted_edit_same_verdict (body : Bytes) (ht : UInt8) (key : By
     (hne : body.length + 1 ≠ key.length) (hU : Uncommitted ht.toNat i e = true) :
     verifyScript (txCtx hashes ecdsa (apply e tx) i) fl (p2pkScriptSig (body ++ [ht])) (p2pkScript key) =
       verifyScript (txCtx hashes ecdsa tx i) fl (p2pkScriptSig (body ++ [ht])) (p2pkScript key) := by
-  rw [p2pk_verify _ fl body ht key hfl (txCtx_inIdx ..) hk hs hne,
-    p2pk_verify _ fl body ht key hfl (txCtx_inIdx ..) hk hs hne]
+  rw [p2pk_verify _ fl body ht key hfl (txCtx_sigTotal ..) hk hs hne,
+    p2pk_verify _ fl body ht key hfl (txCtx_sigTotal ..) hk hs hne]
   show (if (txEnv hashes ecdsa (apply e tx) i).sigCheck _ _ _ _ = true then _ else _) = _
   rw [sigCheck_uncommitted_edit hashes ecdsa tx i e _ _ _ _ hU]
   rfl
@@ -526,8 +535,8 @@ theorem p2pkh_uncommitted_edit_same_verdict (body : Bytes) (ht : UInt8) (key : B
         (p2pkhScript (hashes.hash160 key)) =
       verifyScript (txCtx hashes ecdsa tx i) fl (p2pkhScriptSig (body ++ [ht]) key)
         (p2pkhScript (hashes.hash160 key)) := by
-  have e1 := p2pkh_verify (txCtx hashes ecdsa (apply e tx) i) fl body ht key hfl (txCtx_inIdx ..) hk hs hhl hne
-  have e2 := p2pkh_verify (txCtx hashes ecdsa tx i) fl body ht key hfl (txCtx_inIdx ..) hk hs hhl hne
+  have e1 := p2pkh_verify (txCtx hashes ecdsa (apply e tx) i) fl body ht key hfl (txCtx_sigTotal ..) hk hs hhl hne
+  have e2 := p2pkh_verify (txCtx hashes ecdsa tx i) fl body ht key hfl (txCtx_sigTotal ..) hk hs hhl hne
   rw [show (txCtx hashes ecdsa (apply e tx) i).env.hashes.hash160 key = hashes.hash160 key from rfl] at e1
   rw [show (txCtx hashes ecdsa tx i).env.hashes.hash160 key = hashes.hash160 key from rfl] at e2
   rw [e1, e2]
@@ -542,8 +551,8 @@ theorem multisig_uncommitted_edit_same_verdict (m : Nat) (keys sigs : List Bytes
     (hU : ∀ s ∈ sigs, ∀ ht, s.getLast? = some ht → Uncommitted ht.toNat i e = true) :
     verifyScript (txCtx hashes ecdsa (apply e tx) i) fl (multisigScriptSig sigs) (multisigScript m keys) =
       verifyScript (txCtx hashes ecdsa tx i) fl (multisigScriptSig sigs) (multisigScript m keys) := by
-  rw [verify_multisig _ fl m keys sigs hfl (txCtx_inIdx ..) hm1 hmn hn hsl hk hs hs1 hne,
-    verify_multisig _ fl m keys sigs hfl (txCtx_inIdx ..) hm1 hmn hn hsl hk hs hs1 hne]
+  rw [verify_multisig _ fl m keys sigs hfl (txCtx_sigTotal ..) hm1 hmn hn hsl hk hs hs1 hne,
+    verify_multisig _ fl m keys sigs hfl (txCtx_sigTotal ..) hm1 hmn hn hsl hk hs hs1 hne]
   have : greedy (chkSig (txCtx hashes ecdsa (apply e tx) i).env (multisigScript m keys)) sigs.reverse keys.reverse =
       greedy (chkSig (txCtx hashes ecdsa tx i).env (multisigScript m keys)) sigs.reverse keys.reverse := by
     apply greedy_congr
@@ -565,7 +574,7 @@ theorem p2pk_committed_edit_rejects (body : Bytes) (ht : UInt8) (key : Bytes)
       ecdsa body key (legacySighash (p2pkScript key) (apply e tx) i ht.toNat).1 = false) :
     verifyScript (txCtx hashes ecdsa (apply e tx) i) fl (p2pkScriptSig (body ++ [ht])) (p2pkScript key) =
       .error .verify := by
-  apply template_rejects_wrong_key_p2pk _ fl body ht key hfl (txCtx_inIdx ..) hk hs hne
+  apply template_rejects_wrong_key_p2pk _ fl body ht key hfl (txCtx_sigTotal ..) hk hs hne
   have hsc : (p2pkScript key).length ≤ maxSize := by
     simp [p2pkScript, pushData, maxSize]; omega
   exact sigCheck_committed_edit hashes ecdsa tx i e body key _ _ hC hch hsc wf wf' hr hr' hcr hunf
@@ -586,7 +595,7 @@ theorem p2pkh_committed_edit_rejects (body : Bytes) (ht : UInt8) (key : Bytes)
         (p2pkhScript (hashes.hash160 key)) = .error .verify := by
   have hsc : (p2pkhScript (hashes.hash160 key)).length ≤ maxSize := by
     simp [p2pkhScript, pushData, maxSize, hhl]
-  exact template_rejects_wrong_key_p2pkh (txCtx hashes ecdsa (apply e tx) i) fl body ht key hfl (txCtx_inIdx ..)
+  exact template_rejects_wrong_key_p2pkh (txCtx hashes ecdsa (apply e tx) i) fl body ht key hfl (txCtx_sigTotal ..)
     hk hs hhl hne (sigCheck_committed_edit hashes ecdsa tx i e body key _ _ hC hch hsc wf wf' hr hr' hcr hunf)
 
 /-- the oracle of the edited transaction rejects every signature of the list, whatever the key -/
@@ -630,7 +639,7 @@ theorem multisig_committed_edit_rejects (m : Nat) (keys sigs : List Bytes)
   have hp2 := numPush_length_le keys.length
   have hsc : (multisigScript m keys).length ≤ maxSize := by
     simp only [multisigScript, List.length_append, List.length_singleton, maxSize]; omega
-  rw [verify_multisig _ fl m keys sigs hfl (txCtx_inIdx ..) hm1 hmn hn hsl hk hs hs1 hne]
+  rw [verify_multisig _ fl m keys sigs hfl (txCtx_sigTotal ..) hm1 hmn hn hsl hk hs hs1 hne]
   have hf := chkSig_committed_edit hashes ecdsa tx i e (multisigScript m keys) sigs keys hsc wf wf' hB
   have : greedy (chkSig (txCtx hashes ecdsa (apply e tx) i).env (multisigScript m keys)) sigs.reverse keys.reverse =
       false := by
@@ -653,8 +662,8 @@ theorem p2sh_p2pkh_uncommitted_edit_same_verdict (body : Bytes) (ht : UInt8) (ke
       verifyScript (txCtx hashes ecdsa tx i) fl (p2shScriptSig (p2pkhScriptSig (body ++ [ht]) key) redeem)
         (p2shScript (hashes.hash160 redeem)) := by
   intro redeem
-  have e1 := p2sh_p2pkh_verify (txCtx hashes ecdsa (apply e tx) i) fl body ht key hfl hp (txCtx_inIdx ..) hk hs hhl hne
-  have e2 := p2sh_p2pkh_verify (txCtx hashes ecdsa tx i) fl body ht key hfl hp (txCtx_inIdx ..) hk hs hhl hne
+  have e1 := p2sh_p2pkh_verify (txCtx hashes ecdsa (apply e tx) i) fl body ht key hfl hp (txCtx_sigTotal ..) hk hs hhl hne
+  have e2 := p2sh_p2pkh_verify (txCtx hashes ecdsa tx i) fl body ht key hfl hp (txCtx_sigTotal ..) hk hs hhl hne
   rw [show (txCtx hashes ecdsa (apply e tx) i).env.hashes = hashes from rfl] at e1
   rw [show (txCtx hashes ecdsa tx i).env.hashes = hashes from rfl] at e2
   rw [e1, e2]
@@ -675,9 +684,9 @@ theorem p2sh_multisig_uncommitted_edit_same_verdict (m : Nat) (keys sigs : List 
       verifyScript (txCtx hashes ecdsa tx i) fl (p2shScriptSig (multisigScriptSig sigs) redeem)
         (p2shScript (hashes.hash160 redeem)) := by
   intro redeem
-  have e1 := verify_p2sh_multisig (txCtx hashes ecdsa (apply e tx) i) fl m keys sigs hfl hp (txCtx_inIdx ..)
+  have e1 := verify_p2sh_multisig (txCtx hashes ecdsa (apply e tx) i) fl m keys sigs hfl hp (txCtx_sigTotal ..)
     hm1 hmn hn hsl hk hs hs1 hne hrl hhl
-  have e2 := verify_p2sh_multisig (txCtx hashes ecdsa tx i) fl m keys sigs hfl hp (txCtx_inIdx ..)
+  have e2 := verify_p2sh_multisig (txCtx hashes ecdsa tx i) fl m keys sigs hfl hp (txCtx_sigTotal ..)
     hm1 hmn hn hsl hk hs hs1 hne hrl hhl
   simp only at e1 e2
   rw [show (txCtx hashes ecdsa (apply e tx) i).env.hashes = hashes from rfl] at e1
@@ -700,8 +709,8 @@ theorem p2sh_p2pk_uncommitted_edit_same_verdict (body : Bytes) (ht : UInt8) (key
         (p2shScriptSig (p2pkScriptSig (body ++ [ht])) (p2pkScript key)) (p2shScript (hashes.hash160 (p2pkScript key))) =
       verifyScript (txCtx hashes ecdsa tx i) fl
         (p2shScriptSig (p2pkScriptSig (body ++ [ht])) (p2pkScript key)) (p2shScript (hashes.hash160 (p2pkScript key))) := by
-  have e1 := p2sh_p2pk_verify (txCtx hashes ecdsa (apply e tx) i) fl body ht key hfl hp (txCtx_inIdx ..) hk hs hhl hne
-  have e2 := p2sh_p2pk_verify (txCtx hashes ecdsa tx i) fl body ht key hfl hp (txCtx_inIdx ..) hk hs hhl hne
+  have e1 := p2sh_p2pk_verify (txCtx hashes ecdsa (apply e tx) i) fl body ht key hfl hp (txCtx_sigTotal ..) hk hs hhl hne
+  have e2 := p2sh_p2pk_verify (txCtx hashes ecdsa tx i) fl body ht key hfl hp (txCtx_sigTotal ..) hk hs hhl hne
   rw [show (txCtx hashes ecdsa (apply e tx) i).env.hashes = hashes from rfl] at e1
   rw [show (txCtx hashes ecdsa tx i).env.hashes = hashes from rfl] at e2
   rw [e1, e2]
@@ -722,7 +731,7 @@ theorem p2sh_p2pk_committed_edit_rejects (body : Bytes) (ht : UInt8) (key : Byte
     verifyScript (txCtx hashes ecdsa (apply e tx) i) fl
         (p2shScriptSig (p2pkScriptSig (body ++ [ht])) (p2pkScript key)) (p2shScript (hashes.hash160 (p2pkScript key))) =
       .error .verify := by
-  have e1 := p2sh_p2pk_verify (txCtx hashes ecdsa (apply e tx) i) fl body ht key hfl hp (txCtx_inIdx ..) hk hs hhl hne
+  have e1 := p2sh_p2pk_verify (txCtx hashes ecdsa (apply e tx) i) fl body ht key hfl hp (txCtx_sigTotal ..) hk hs hhl hne
   rw [show (txCtx hashes ecdsa (apply e tx) i).env.hashes = hashes from rfl] at e1
   have hsc : (p2pkScript key).length ≤ maxSize := by
     simp [p2pkScript, pushData, maxSize]; omega
@@ -747,7 +756,7 @@ theorem p2sh_p2pkh_committed_edit_rejects (body : Bytes) (ht : UInt8) (key : Byt
     verifyScript (txCtx hashes ecdsa (apply e tx) i) fl (p2shScriptSig (p2pkhScriptSig (body ++ [ht]) key) redeem)
         (p2shScript (hashes.hash160 redeem)) = .error .verify := by
   intro redeem
-  have e1 := p2sh_p2pkh_verify (txCtx hashes ecdsa (apply e tx) i) fl body ht key hfl hp (txCtx_inIdx ..) hk hs hhl hne
+  have e1 := p2sh_p2pkh_verify (txCtx hashes ecdsa (apply e tx) i) fl body ht key hfl hp (txCtx_sigTotal ..) hk hs hhl hne
   rw [show (txCtx hashes ecdsa (apply e tx) i).env.hashes = hashes from rfl] at e1
   have hsc : (p2pkhScript (hashes.hash160 key)).length ≤ maxSize := by
     simp [p2pkhScript, pushData, maxSize, hhl]
@@ -777,7 +786,7 @@ theorem p2sh_multisig_committed_edit_rejects (m : Nat) (keys sigs : List Bytes)
     verifyScript (txCtx hashes ecdsa (apply e tx) i) fl (p2shScriptSig (multisigScriptSig sigs) redeem)
         (p2shScript (hashes.hash160 redeem)) = .error .verify := by
   intro redeem
-  have e1 := verify_p2sh_multisig (txCtx hashes ecdsa (apply e tx) i) fl m keys sigs hfl hp (txCtx_inIdx ..)
+  have e1 := verify_p2sh_multisig (txCtx hashes ecdsa (apply e tx) i) fl m keys sigs hfl hp (txCtx_sigTotal ..)
     hm1 hmn hn hsl hk hs hs1 hne hrl hhl
   simp only at e1
   rw [show (txCtx hashes ecdsa (apply e tx) i).env.hashes = hashes from rfl] at e1
@@ -807,7 +816,8 @@ end edits
   opcodes are the executable SHA-1 / RIPEMD-160 / SHA-256.
   The theorems below compose the template verdicts of Part 2 with C03's `Model = Spec` theorem: the
   side conditions of `C03.raw_eq_spec` (script code tokenises, shorter than 2^64, one-byte hash type)
-  are PROVED for every template script code; what remains is `FieldsWF tx` (fields in wire range).
+  are PROVED for every template script code; what remains is `FieldsWF tx` (fields in wire range),
+  which also yields `(realCtx tx i).SigTotal` for the index `i ≥ 0` (`realCtx_sigTotal`).
   The HASH160 length hypothesis of Part 2 is discharged for the real hashes (Proofs/CryptoLen).
   So: the digest about which Part 1 speaks (`Spec.Sighash.legacySighash`) is the digest the modelled
   `_CheckSig` verifies, and the verdict of the modelled VerifyScript on a template is exactly
@@ -839,7 +849,7 @@ theorem p2pk_verify_real (body : Bytes) (ht : UInt8) (key : Bytes)
     verifyScript (realCtx tx (i : Int)) fl (p2pkScriptSig (body ++ [ht])) (p2pkScript key) =
       if ecdsaCheck body key (legacySighash (p2pkScript key) tx i ht.toNat).1 then .ok () else .error .verify := by
   have hl : (p2pkScript key).length < 2 ^ 64 := by simp [p2pkScript, pushData]; omega
-  rw [p2pk_verify _ fl body ht key hfl (realCtx_inIdx tx i hwf) hk hs hne,
+  rw [p2pk_verify _ fl body ht key hfl (realCtx_sigTotal tx i hwf) hk hs hne,
     realSigCheck_eq_spec tx i body key _ _ (parses_p2pk key hk) hl hwf ht.toNat_lt]
 
 theorem p2pkh_verify_real (body : Bytes) (ht : UInt8) (key : Bytes)
@@ -850,7 +860,7 @@ theorem p2pkh_verify_real (body : Bytes) (ht : UInt8) (key : Bytes)
       else .error .verify := by
   have hh := realHashes_hash160_length key
   have hl : (p2pkhScript (realHashes.hash160 key)).length < 2 ^ 64 := by simp [p2pkhScript, pushData, hh]
-  have e := p2pkh_verify (realCtx tx (i : Int)) fl body ht key hfl (realCtx_inIdx tx i hwf) hk hs
+  have e := p2pkh_verify (realCtx tx (i : Int)) fl body ht key hfl (realCtx_sigTotal tx i hwf) hk hs
     (real_hash160_length tx i key) hne
   rw [show (realCtx tx (i : Int)).env.hashes.hash160 key = realHashes.hash160 key from rfl] at e
   rw [e, realSigCheck_eq_spec tx i body key _ _ (parses_p2pkh _ (by omega)) hl hwf ht.toNat_lt]
@@ -872,7 +882,7 @@ theorem multisig_verify_real (m : Nat) (keys sigs : List Bytes)
   have hchk : chkSig (realCtx tx (i : Int)).env (multisigScript m keys) = chk := by
     funext s k
     exact real_chkSig tx i _ s k (parses_multisig m keys hk) hl hwf
-  have := multisig_verify (realCtx tx (i : Int)) fl m keys sigs hfl (realCtx_inIdx tx i hwf) hm1 hmn hn hsl hk hs hs1 hne
+  have := multisig_verify (realCtx tx (i : Int)) fl m keys sigs hfl (realCtx_sigTotal tx i hwf) hm1 hmn hn hsl hk hs hs1 hne
   rw [hchk] at this
   exact this
 
@@ -883,7 +893,7 @@ theorem p2sh_p2pk_verify_real (body : Bytes) (ht : UInt8) (key : Bytes)
         (p2shScript (realHashes.hash160 (p2pkScript key))) =
       if ecdsaCheck body key (legacySighash (p2pkScript key) tx i ht.toNat).1 then .ok () else .error .verify := by
   have hl : (p2pkScript key).length < 2 ^ 64 := by simp [p2pkScript, pushData]; omega
-  have e := p2sh_p2pk_verify (realCtx tx (i : Int)) fl body ht key hfl hp (realCtx_inIdx tx i hwf) hk hs
+  have e := p2sh_p2pk_verify (realCtx tx (i : Int)) fl body ht key hfl hp (realCtx_sigTotal tx i hwf) hk hs
     (real_hash160_length tx i) hne
   rw [show (realCtx tx (i : Int)).env.hashes = realHashes from rfl] at e
   rw [e, realSigCheck_eq_spec tx i body key _ _ (parses_p2pk key (by omega)) hl hwf ht.toNat_lt]
@@ -898,7 +908,7 @@ theorem p2sh_p2pkh_verify_real (body : Bytes) (ht : UInt8) (key : Bytes)
   intro redeem
   have hh := realHashes_hash160_length key
   have hl : redeem.length < 2 ^ 64 := by simp [redeem, p2pkhScript, pushData, hh]
-  have e := p2sh_p2pkh_verify (realCtx tx (i : Int)) fl body ht key hfl hp (realCtx_inIdx tx i hwf) hk hs
+  have e := p2sh_p2pkh_verify (realCtx tx (i : Int)) fl body ht key hfl hp (realCtx_sigTotal tx i hwf) hk hs
     (real_hash160_length tx i) hne
   rw [show (realCtx tx (i : Int)).env.hashes = realHashes from rfl] at e
   rw [e, realSigCheck_eq_spec tx i body key _ _ (parses_p2pkh _ (by omega)) hl hwf ht.toNat_lt]
@@ -917,7 +927,7 @@ theorem p2sh_multisig_verify_real (m : Nat) (keys sigs : List Bytes)
   have hchk : chkSig (realCtx tx (i : Int)).env redeem = chk := by
     funext s k
     exact real_chkSig tx i _ s k (parses_multisig m keys hk) (by show (multisigScript m keys).length < 2 ^ 64; omega) hwf
-  have := p2sh_multisig_verify (realCtx tx (i : Int)) fl m keys sigs hfl hp (realCtx_inIdx tx i hwf) hm1 hmn hn hsl hk hs
+  have := p2sh_multisig_verify (realCtx tx (i : Int)) fl m keys sigs hfl hp (realCtx_sigTotal tx i hwf) hm1 hmn hn hsl hk hs
     hs1 hne hrl (real_hash160_length tx i)
   simp only at this
   rw [show (realCtx tx (i : Int)).env.hashes = realHashes from rfl, hchk] at this
@@ -952,7 +962,7 @@ theorem p2pk_real_eq_reference (body : Bytes) (ht : UInt8) (key : Bytes)
     verifyScript (realCtx tx (i : Int)) fl (p2pkScriptSig (body ++ [ht])) (p2pkScript key) =
       verifyScript (txCtx realHashes ecdsaCheck tx i) fl (p2pkScriptSig (body ++ [ht])) (p2pkScript key) := by
   rw [p2pk_verify_real tx i fl body ht key hfl hwf hk hs hne,
-    p2pk_verify _ fl body ht key hfl (txCtx_inIdx ..) hk hs hne]
+    p2pk_verify _ fl body ht key hfl (txCtx_sigTotal ..) hk hs hne]
   rfl
 
 theorem p2pkh_real_eq_reference (body : Bytes) (ht : UInt8) (key : Bytes)
@@ -961,7 +971,7 @@ theorem p2pkh_real_eq_reference (body : Bytes) (ht : UInt8) (key : Bytes)
     verifyScript (realCtx tx (i : Int)) fl (p2pkhScriptSig (body ++ [ht]) key) (p2pkhScript (realHashes.hash160 key)) =
       verifyScript (txCtx realHashes ecdsaCheck tx i) fl (p2pkhScriptSig (body ++ [ht]) key)
         (p2pkhScript (realHashes.hash160 key)) := by
-  have e2 := p2pkh_verify (txCtx realHashes ecdsaCheck tx i) fl body ht key hfl (txCtx_inIdx ..) hk hs
+  have e2 := p2pkh_verify (txCtx realHashes ecdsaCheck tx i) fl body ht key hfl (txCtx_sigTotal ..) hk hs
     (realHashes_hash160_length key) hne
   rw [show (txCtx realHashes ecdsaCheck tx i).env.hashes.hash160 key = realHashes.hash160 key from rfl] at e2
   rw [p2pkh_verify_real tx i fl body ht key hfl hwf hk hs hne, e2]
@@ -976,8 +986,8 @@ theorem multisig_real_eq_reference (m : Nat) (keys sigs : List Bytes)
       verifyScript (txCtx realHashes ecdsaCheck tx i) fl (multisigScriptSig sigs) (multisigScript m keys) := by
   have hl : (multisigScript m keys).length < 2 ^ 64 := by
     have := multisig_length_le m keys hk; omega
-  rw [verify_multisig _ fl m keys sigs hfl (realCtx_inIdx tx i hwf) hm1 hmn hn hsl hk hs hs1 hne,
-    verify_multisig _ fl m keys sigs hfl (txCtx_inIdx ..) hm1 hmn hn hsl hk hs hs1 hne]
+  rw [verify_multisig _ fl m keys sigs hfl (realCtx_sigTotal tx i hwf) hm1 hmn hn hsl hk hs hs1 hne,
+    verify_multisig _ fl m keys sigs hfl (txCtx_sigTotal ..) hm1 hmn hn hsl hk hs hs1 hne]
   have : chkSig (realCtx tx (i : Int)).env (multisigScript m keys) =
       chkSig (txCtx realHashes ecdsaCheck tx i).env (multisigScript m keys) := by
     funext s k
@@ -991,7 +1001,7 @@ theorem p2sh_p2pk_real_eq_reference (body : Bytes) (ht : UInt8) (key : Bytes)
         (p2shScript (realHashes.hash160 (p2pkScript key))) =
       verifyScript (txCtx realHashes ecdsaCheck tx i) fl (p2shScriptSig (p2pkScriptSig (body ++ [ht])) (p2pkScript key))
         (p2shScript (realHashes.hash160 (p2pkScript key))) := by
-  have e2 := p2sh_p2pk_verify (txCtx realHashes ecdsaCheck tx i) fl body ht key hfl hp (txCtx_inIdx ..) hk hs
+  have e2 := p2sh_p2pk_verify (txCtx realHashes ecdsaCheck tx i) fl body ht key hfl hp (txCtx_sigTotal ..) hk hs
     realHashes_hash160_length hne
   rw [show (txCtx realHashes ecdsaCheck tx i).env.hashes = realHashes from rfl] at e2
   rw [p2sh_p2pk_verify_real tx i fl body ht key hfl hp hwf hk hs hne, e2]
@@ -1007,7 +1017,7 @@ theorem p2sh_p2pkh_real_eq_reference (body : Bytes) (ht : UInt8) (key : Bytes)
         (p2shScript (realHashes.hash160 redeem)) := by
   intro redeem
   have e1 := p2sh_p2pkh_verify_real tx i fl body ht key hfl hp hwf hk hs hne
-  have e2 := p2sh_p2pkh_verify (txCtx realHashes ecdsaCheck tx i) fl body ht key hfl hp (txCtx_inIdx ..) hk hs
+  have e2 := p2sh_p2pkh_verify (txCtx realHashes ecdsaCheck tx i) fl body ht key hfl hp (txCtx_sigTotal ..) hk hs
     realHashes_hash160_length hne
   rw [show (txCtx realHashes ecdsaCheck tx i).env.hashes = realHashes from rfl] at e2
   simp only at e1
@@ -1025,9 +1035,9 @@ theorem p2sh_multisig_real_eq_reference (m : Nat) (keys sigs : List Bytes)
       verifyScript (txCtx realHashes ecdsaCheck tx i) fl (p2shScriptSig (multisigScriptSig sigs) redeem)
         (p2shScript (realHashes.hash160 redeem)) := by
   intro redeem
-  have e1 := verify_p2sh_multisig (realCtx tx (i : Int)) fl m keys sigs hfl hp (realCtx_inIdx tx i hwf)
+  have e1 := verify_p2sh_multisig (realCtx tx (i : Int)) fl m keys sigs hfl hp (realCtx_sigTotal tx i hwf)
     hm1 hmn hn hsl hk hs hs1 hne hrl (real_hash160_length tx i)
-  have e2 := verify_p2sh_multisig (txCtx realHashes ecdsaCheck tx i) fl m keys sigs hfl hp (txCtx_inIdx ..)
+  have e2 := verify_p2sh_multisig (txCtx realHashes ecdsaCheck tx i) fl m keys sigs hfl hp (txCtx_sigTotal ..)
     hm1 hmn hn hsl hk hs hs1 hne hrl realHashes_hash160_length
   simp only at e1 e2
   rw [show (realCtx tx (i : Int)).env.hashes = realHashes from rfl] at e1
@@ -1264,43 +1274,41 @@ def exEnv : Env :=
 def exCtx : Ctx :=
   { hashes := exEnv.hashes, sigHash := fun _ _ => .ok [], sigVerify := fun body key _ => body[1]? == key[1]? }
 theorem exCtx_total : exCtx.SigTotal := ⟨fun _ _ _ _ _ => ⟨_, rfl⟩⟩
-/-- lets the `by decide` of the examples below discharge the `SigTotal` hypothesis -/
-instance : Decidable exCtx.SigTotal := isTrue exCtx_total
 def exKey (j : UInt8) : Bytes := 2 :: List.replicate 32 j
 def exBody (j : UInt8) : Bytes := 0x30 :: j :: List.replicate 68 0
 def exFlags : Flags := { p2sh := true, nullDummy := true, cleanStack := true, discourageNops := false }
 
 example : verifyScript exCtx exFlags (p2pkScriptSig (exBody 5 ++ [0x83])) (p2pkScript (exKey 5)) = .ok () :=
-  template_accepts_p2pk exCtx exFlags (exBody 5) 0x83 (exKey 5) (by decide) (by decide) (by decide) (by decide)
+  template_accepts_p2pk exCtx exFlags (exBody 5) 0x83 (exKey 5) (by decide) exCtx_total (by decide) (by decide)
     (by decide) (by decide)
 
 example : verifyScript exCtx exFlags (p2pkScriptSig (exBody 6 ++ [0x83])) (p2pkScript (exKey 5)) = .error .verify :=
-  template_rejects_wrong_key_p2pk exCtx exFlags (exBody 6) 0x83 (exKey 5) (by decide) (by decide) (by decide)
+  template_rejects_wrong_key_p2pk exCtx exFlags (exBody 6) 0x83 (exKey 5) (by decide) exCtx_total (by decide)
     (by decide) (by decide) (by decide)
 
 example : verifyScript exCtx exFlags (p2pkhScriptSig (exBody 5 ++ [1]) (exKey 5))
     (p2pkhScript (exEnv.hashes.hash160 (exKey 5))) = .ok () :=
-  template_accepts_p2pkh exCtx exFlags (exBody 5) 1 (exKey 5) (by decide) (by decide) (by decide) (by decide)
+  template_accepts_p2pkh exCtx exFlags (exBody 5) 1 (exKey 5) (by decide) exCtx_total (by decide) (by decide)
     (by decide) (by decide) (by decide)
 
 /-- 2-of-3 with the signatures of keys 1 and 3, in key order: accepted … -/
 example : verifyScript exCtx exFlags (multisigScriptSig [exBody 1 ++ [1], exBody 3 ++ [2]])
     (multisigScript 2 [exKey 1, exKey 2, exKey 3]) = .ok () :=
   template_accepts_multisig exCtx exFlags 2 [exKey 1, exKey 2, exKey 3] [exBody 1 ++ [1], exBody 3 ++ [2]]
-    (by decide) (by decide) (by decide) (by decide) (by decide) (by decide) (by decide) (by decide) (by decide)
+    (by decide) exCtx_total (by decide) (by decide) (by decide) (by decide) (by decide) (by decide) (by decide)
     (by decide) (.take (by decide) (.skip (.take (by decide) (.nil _))))
 
 /-- … out of key order, or the same signature twice: rejected -/
 example : verifyScript exCtx exFlags (multisigScriptSig [exBody 3 ++ [1], exBody 1 ++ [1]])
     (multisigScript 2 [exKey 1, exKey 2, exKey 3]) = .error .verify :=
   template_rejects_wrong_key_multisig exCtx exFlags 2 [exKey 1, exKey 2, exKey 3] [exBody 3 ++ [1], exBody 1 ++ [1]]
-    (by decide) (by decide) (by decide) (by decide) (by decide) (by decide) (by decide) (by decide) (by decide)
+    (by decide) exCtx_total (by decide) (by decide) (by decide) (by decide) (by decide) (by decide) (by decide)
     (by decide) (by rw [← matching_iff_greedy_reverse]; decide)
 
 example : verifyScript exCtx exFlags (multisigScriptSig [exBody 1 ++ [1], exBody 1 ++ [1]])
     (multisigScript 2 [exKey 1, exKey 2, exKey 3]) = .error .verify :=
   template_rejects_wrong_key_multisig exCtx exFlags 2 [exKey 1, exKey 2, exKey 3] [exBody 1 ++ [1], exBody 1 ++ [1]]
-    (by decide) (by decide) (by decide) (by decide) (by decide) (by decide) (by decide) (by decide) (by decide)
+    (by decide) exCtx_total (by decide) (by decide) (by decide) (by decide) (by decide) (by decide) (by decide)
     (by decide) (by rw [← matching_iff_greedy_reverse]; decide)
 
 /-- the hypotheses of the edit theorems are met: under SINGLE|ANYONECANPAY, signing input 1 of `exTx`,
@@ -1346,14 +1354,14 @@ theorem toySig_size (j : UInt8) (t : Tx) (h : Regular (0x83 : UInt8).toNat 1 t) 
 /-- ACCEPTS: the input signed by the toy signer is accepted (`template_accepts_p2pk`, all hypotheses met) -/
 example : verifyScript (toyCtx exTx) exFlags (p2pkScriptSig (toySig (exKey 5) (exDigest exTx) ++ [0x83]))
     (p2pkScript (exKey 5)) = .ok () :=
-  template_accepts_p2pk (toyCtx exTx) exFlags _ 0x83 (exKey 5) (by decide) (txCtx_inIdx ..) (by decide)
+  template_accepts_p2pk (toyCtx exTx) exFlags _ 0x83 (exKey 5) (by decide) (txCtx_sigTotal ..) (by decide)
     (toySig_size 5 exTx (by decide)).1 (toySig_size 5 exTx (by decide)).2
     (by simp [toyCtx, txCtx, Ctx.env, toyEcdsa, exDigest])
 
 /-- REJECTS, wrong key: the same digest signed by key 6 does not spend an output of key 5 -/
 example : verifyScript (toyCtx exTx) exFlags (p2pkScriptSig (toySig (exKey 6) (exDigest exTx) ++ [0x83]))
     (p2pkScript (exKey 5)) = .error .verify :=
-  template_rejects_wrong_key_p2pk (toyCtx exTx) exFlags _ 0x83 (exKey 5) (by decide) (txCtx_inIdx ..) (by decide)
+  template_rejects_wrong_key_p2pk (toyCtx exTx) exFlags _ 0x83 (exKey 5) (by decide) (txCtx_sigTotal ..) (by decide)
     (toySig_size 6 exTx (by decide)).1 (toySig_size 6 exTx (by decide)).2
     (by simp [toyCtx, txCtx, Ctx.env, toyEcdsa, toySig, exKey_take])
 
@@ -1365,7 +1373,7 @@ example : verifyScript (toyCtx (apply (.setValue 0 5) exTx)) exFlags
     (toySig_size 5 exTx (by decide)).1 (toySig_size 5 exTx (by decide)).2 (by decide)
   show verifyScript (txCtx exEnv.hashes toyEcdsa (apply (.setValue 0 5) exTx) 1) _ _ _ = _
   rw [h]
-  exact template_accepts_p2pk (toyCtx exTx) exFlags _ 0x83 (exKey 5) (by decide) (txCtx_inIdx ..) (by decide)
+  exact template_accepts_p2pk (toyCtx exTx) exFlags _ 0x83 (exKey 5) (by decide) (txCtx_sigTotal ..) (by decide)
     (toySig_size 5 exTx (by decide)).1 (toySig_size 5 exTx (by decide)).2
     (by simp [toyCtx, txCtx, Ctx.env, toyEcdsa, exDigest])
 
